@@ -302,7 +302,7 @@ class NodeModel(Engine):
                           st.sampled_from([None] * 12 + ['!!set'])))
 
         opt = st.tuples(st.integers(0, len(OP_TABLE) - 1), st.integers(0, 11),
-                        st.integers(0, 63), st.integers(0, 511))
+                        st.integers(0, 63), st.integers(0, 4095))
 
         @st.composite
         def plan(draw):
@@ -340,7 +340,20 @@ class NodeModel(Engine):
         dvals = [pyval(d) for p, d in opt]
         sig = ['self'] + [p.replace('-', '_') for p in req] + [
             '{}=_d[{}]'.format(p.replace('-', '_'), i) for i, (p, d) in enumerate(opt)]
-        src = 'class K:\n    def __init__({}):\n        pass\n'.format(', '.join(sig))
+        # shapes of class whose constructor parameters still are those of __init__:
+        # an own __new__ (instance counting, interning), a metaclass with __call__
+        shape = cl.get('shape')
+        head, extra_body = 'class K:\n', ''
+        if shape == 'new':
+            extra_body = '    def __new__(cls, *args, **kwargs):\n        return super().__new__(cls)\n'
+        elif shape == 'new_named':
+            extra_body = ('    def __new__(cls, other=7, *args, **kwargs):\n'
+                          '        return super().__new__(cls)\n')
+        elif shape == 'meta':
+            head = ('class M(type):\n    def __call__(cls, *args, **kwargs):\n'
+                    '        return super().__call__(*args, **kwargs)\n'
+                    'class K(metaclass=M):\n')
+        src = head + extra_body + '    def __init__({}):\n        pass\n'.format(', '.join(sig))
         ovals = {p.replace('-', '_'): pyval(d) for p, d in cl['override'].items()}
         if cl['override']:
             src += '    _yatiml_defaults = _o\n'
@@ -509,6 +522,9 @@ class NodeModel(Engine):
                 p = params[(vsel // 5) % len(params)][0]
                 op['cl']['sibling'] = {p: DEFAULTS[(vsel // 7) % len(DEFAULTS)]}
                 op['cl']['target'] = 'sub' if vsel & 256 else 'base'
+            shape = {0: None, 1: 'new', 2: 'meta', 3: 'new_named'}[(vsel >> 9) & 3]
+            if shape and vsel & 2048:
+                op['cl']['shape'] = shape
         return op
 
     def pick_key(self, sel, m, fresh_names):
